@@ -343,11 +343,13 @@ def promotion_table(repo, run, rule):
     rows = 0
     for S in classes:
         for O in classes:
-            me, ot = node_obj('self', S), node_obj('other', O)
+            state = dict(_priority=1, _delete=True, _allow_new=False, _safe=False, _implicit_delete=True, _implicit_allow_new=False, _implicit_safe=False, _default_safe=False)
+            me, ot = node_obj('self', S, **state), node_obj('other', O)
             f = FDE(repo, stubs={'clear', 'extend', 'update', '_propagate_implicit_values'})
             r = fde_guard(lambda: f.call(fi, me, ot))
             rows += 1
-            calls = [(e[1], getattr(e[2], 'name', None), tuple(getattr(a, 'name', repr(a)) for a in e[3])) for e in r.effects if e[0] == 'call']
+            # (how the attributes travel - __dict__.update, a loop of setattr - is not judged: the state of the promoted node is)
+            calls = [(e[1], getattr(e[2], 'name', None), tuple(getattr(a, 'name', repr(a)) for a in e[3])) for e in r.effects if e[0] == 'call' and e[1] != '__dict__.update']
             composed = repo.is_subclass(S, 'ComposedNode') and repo.is_subclass(O, 'ComposedNode')
             plain = lambda c: c in ('ConfigDict', 'ConfigList')
             if S == O or not composed:
@@ -373,12 +375,16 @@ def promotion_table(repo, run, rule):
             same_kind = kind(S) == kind(O)
             if kind(O) == 'list':
                 want_arg = 'self' if same_kind else 'self.values()'
-                want = [('clear', 'other', ()), ('extend', 'other', (want_arg,)), ('__dict__.update', 'other', ('self',))]
+                want = [('clear', 'other', ()), ('extend', 'other', (want_arg,))]
             else:
                 want_arg = 'self' if same_kind else 'enumerate(self)'
-                want = [('clear', 'other', ()), ('update', 'other', (want_arg,)), ('__dict__.update', 'other', ('self',))]
+                want = [('clear', 'other', ()), ('update', 'other', (want_arg,))]
             if calls != want:
                 bad.append((S, O, 'promotion performs %s, expected %s' % (calls, want)))
+                continue
+            lost = sorted(k for k, v in state.items() if ot.f.get(k) is not v and ot.f.get(k) != v)
+            if lost:
+                bad.append((S, O, 'the promoted node does not take over %s of the winner (merge-control flags and safety decide how it merges and evaluates from here on)' % ', '.join(lost)))
     run.table(rule, rows, '_maybe_promote over %d x %d node classes' % (len(classes), len(classes)))
     if bad:
         S, O, why = bad[0]
